@@ -1349,6 +1349,10 @@ class Folder:
                 if isinstance(v, list) and not isinstance(v, PySeq):
                     return _permute(v, perm_)
                 raise Unfoldable("permute of a non-tensor")
+            if m == "count_nonzero" and len(node.args) <= 1 and all(k.arg == "dim" for k in node.keywords) and not isinstance(self._peek(node.func.value), PySeq):
+                cmp_ = ast.Compare(left=node.func.value, ops=[ast.NotEq()], comparators=[ast.Constant(value=0)])
+                call_ = ast.Call(func=ast.Attribute(value=cmp_, attr="sum", ctx=ast.Load()), args=list(node.args), keywords=list(node.keywords))
+                return self.fold(ast.fix_missing_locations(ast.copy_location(call_, node)))
             if m == "index_select" and len(node.args) == 2 and not node.keywords and not isinstance(self._peek(node.func.value), PySeq):
                 v = self.fold(node.func.value)
                 d = self.fold(node.args[0])
@@ -1573,6 +1577,11 @@ class Folder:
                         return isinstance(v, list) and not isinstance(v, PySeq)
                     return isinstance(v, table[tn])
                 raise Unfoldable(f"isinstance against {tn}")
+            if short == "count_nonzero" and nm.startswith("torch.") and node.args and all(k.arg == "dim" for k in node.keywords) and len(node.args) <= 2:
+                # count_nonzero(t[, dim]) is (t != 0).sum([dim])
+                cmp_ = ast.Compare(left=node.args[0], ops=[ast.NotEq()], comparators=[ast.Constant(value=0)])
+                call_ = ast.Call(func=ast.Attribute(value=cmp_, attr="sum", ctx=ast.Load()), args=list(node.args[1:]), keywords=list(node.keywords))
+                return self.fold(ast.fix_missing_locations(ast.copy_location(call_, node)))
             if short == "index_select" and nm.startswith("torch.") and len(node.args) == 3 and not node.keywords:
                 return self.fold(ast.copy_location(ast.Call(func=ast.copy_location(ast.Attribute(value=node.args[0], attr=short, ctx=ast.Load()), node), args=list(node.args[1:]), keywords=[]), node))
             if short in ("cumsum", "cumprod") and nm.startswith("torch.") and node.args and (len(node.args) == 2 or (len(node.args) == 1 and len(node.keywords) == 1 and node.keywords[0].arg == "dim")):
